@@ -342,6 +342,11 @@ package litefs
 //@        (t == StreamFrameTypeEnd <==> typeis(result0, *EndStreamFrame)) && (t == StreamFrameTypeDropDB <==> typeis(result0, *DropDBStreamFrame)) &&
 //@        (t == StreamFrameTypeHandoff <==> typeis(result0, *HandoffStreamFrame)) && (t == StreamFrameTypeHWM <==> typeis(result0, *HWMStreamFrame)) &&
 //@        (t == StreamFrameTypeHeartbeat <==> typeis(result0, *HeartbeatStreamFrame))
+// the frame object behind the interface is a real (non-nil) object
+//@   ensures   err == nil && typeis(result0, *LTXStreamFrame) ==> as(result0, *LTXStreamFrame) != nil
+//@   ensures   err == nil && typeis(result0, *DropDBStreamFrame) ==> as(result0, *DropDBStreamFrame) != nil
+//@   ensures   err == nil && typeis(result0, *HandoffStreamFrame) ==> as(result0, *HandoffStreamFrame) != nil
+//@   ensures   err == nil && typeis(result0, *HWMStreamFrame) ==> as(result0, *HWMStreamFrame) != nil
 //@   nopanic
 
 // The tag handed to binary.Write is f.Type(); the body is written only after the tag was written
